@@ -289,7 +289,7 @@ impl<'a> Gen<'a> {
                     let href = if self.rng.chance(1, 6) && !self.hrefs.is_empty() {
                         self.rng.pick(&self.hrefs).clone()
                     } else if self.o.odd_links && self.rng.chance(1, 6) {
-                        self.rng.pick(&["", "#frag", "rel/path", "?q=1"]).to_string()
+                        self.rng.pick(&["", "#frag", "rel/path", "?q=1", "http://n.example/a\nb"]).to_string()
                     } else {
                         format!("http://h{}.example/{}", self.linkn, "p".repeat(self.rng.below(20)))
                     };
@@ -364,16 +364,21 @@ impl<'a> Gen<'a> {
             if self.rng.chance(1, 8) {
                 continue; // blank line
             }
-            if self.rng.chance(1, 4) {
-                s.push_str(&" ".repeat(self.rng.range(1, 4)));
+            match self.rng.below(8) {
+                0 | 1 => s.push_str(&" ".repeat(self.rng.range(1, 4))),
+                2 => s.push_str(&format!("{}\t", " ".repeat(self.rng.range(1, 3)))), // spaces then a tab
+                3 => s.push('\t'),
+                _ => {}
             }
             let nw = self.rng.range(1, 4);
             for j in 0..nw {
                 if j > 0 {
-                    if self.rng.chance(1, 6) {
-                        s.push('\t');
-                    } else {
-                        s.push_str(&" ".repeat(self.rng.range(1, 4)));
+                    match self.rng.below(12) {
+                        0 | 1 => s.push('\t'),
+                        2 => s.push_str(&format!("{}\t", " ".repeat(self.rng.range(1, 3)))), // pending spaces, then a tab
+                        3 => s.push_str(&format!("\t{}", " ".repeat(self.rng.range(1, 3)))),
+                        4 => s.push_str("\t\t"),
+                        _ => s.push_str(&" ".repeat(self.rng.range(1, 4))),
                     }
                 }
                 s.push_str(&self.word());
@@ -494,7 +499,27 @@ impl<'a> Gen<'a> {
             }
             6 if self.o.pre => {
                 let t = self.pre_text();
-                H::El("pre".into(), attrs, vec![H::Text(t)])
+                // half of the blocks are cut into text nodes and inline elements (so that a source
+                // line can start in a node of its own)
+                if self.o.inline_markup && self.rng.chance(1, 2) {
+                    let cs: Vec<char> = t.chars().collect();
+                    let mut kids = Vec::new();
+                    let mut i = 0;
+                    while i < cs.len() {
+                        let step = self.rng.range(1, 10).min(cs.len() - i);
+                        let seg: String = cs[i..i + step].iter().collect();
+                        if self.rng.chance(1, 3) {
+                            let name = *self.rng.pick(&["em", "strong", "code", "span", "b"]);
+                            kids.push(H::El(name.into(), vec![], vec![H::Text(seg)]));
+                        } else {
+                            kids.push(H::Text(seg));
+                        }
+                        i += step;
+                    }
+                    H::El("pre".into(), attrs, kids)
+                } else {
+                    H::El("pre".into(), attrs, vec![H::Text(t)])
+                }
             }
             7 | 8 if self.o.tables > 0 && depth > 0 => {
                 let regular = self.o.tables == 1 || self.rng.chance(3, 4);
